@@ -31,7 +31,7 @@ deriving DecidableEq, Repr
 
 /-- dictionary.Value -/
 structure Value where
-  attribute : Bytes
+  attrName : Bytes
   name : Bytes
   number : Nat
 deriving DecidableEq, Repr
